@@ -141,6 +141,52 @@ def h_token_unit(ex, doc_lens, V, R, reversals, kind, normalize_windows, sym_off
     return {"cells": [got[k] for k in sorted(got)]}
 
 
+def h_window_lemma(ex, reverse):
+    """window_at_index for EVERY sequence length, radius and position (sizes symbolic): the slice it cuts is exactly the
+    positions within the radius on the proper side, clipped to the sequence -- never the target itself, never outside
+    the document -- and the reversed window is flipped so that position k of the result is at distance k + 1"""
+    wk = loader.load("vectorizers._window_kernels")
+    n = fresh_int("len", 1, 10 ** 6)
+    r = fresh_int("radius", 0, 10 ** 6)
+    ind = fresh_int("ind", 0)
+    assume(ind < n)
+    register("len", n); register("radius", r); register("ind", ind)
+    cuts = []
+
+    class _Seq:
+        def __len__(self):
+            raise TypeError("symbolic length")
+
+        def __getitem__(self, k):
+            cuts.append((k.start, k.stop))
+            return ("slice", k.start, k.stop)
+    seq = _Seq()
+    saved_len, saved_np = wk.__dict__.get("len"), wk.np
+
+    class _NP:
+        @staticmethod
+        def flipud(x):
+            return ("flipped",) + x[1:]
+    wk.len = lambda x: n if x is seq else saved_len(x)
+    wk.np = _NP
+    try:
+        out = call(wk.window_at_index, seq, r, ind, reverse)
+    finally:
+        wk.len, wk.np = saved_len, saved_np
+    check("exactly one slice is cut", len(cuts) == 1)
+    if len(cuts) != 1:
+        return None
+    a, b = cuts[0]
+    if reverse:
+        lo = ite(ind - r >= 0, ind - r, 0)
+        check("reverse window = positions [max(ind - radius, 0), ind), flipped (nearest first)", sand(a == lo, b == ind) and out[0] == "flipped")
+    else:
+        hi = ite(ind + r + 1 <= n, ind + r + 1, n)
+        check("forward window = positions [ind + 1, min(ind + radius + 1, len))", sand(a == ind + 1, b == hi) and out[0] == "slice")
+    check("the window stays inside the document and excludes the target", sand(a >= 0, b <= n, simplies(a < b, sor(b <= ind, a > ind))))
+    return None
+
+
 def cases(tier):
     cs = []
     A = [("unit", FUNCS)]
@@ -165,6 +211,9 @@ def cases(tier):
                 grid.append(((3,), 3, 2, (False,), kind, nwn, True, True, kind == "geometric", True))
                 grid.append(((0, 3, 1), 2, 2, (True,), kind, nwn, True, True, False, True))
                 grid.append(((3,), 2, 2, (True, False), kind, nwn, True, True, False, False))
+    for rv in (False, True):
+        cs.append(Case("window_lemma[all sizes,%s]" % ("before" if rv else "after"), h_window_lemma, dict(reverse=rv), replay="C03:replay_window_lemma",
+                       functions=["_window_kernels.window_at_index"], bounds={"len, radius, ind": "symbolic up to 10^6"}))
     for g in grid:
         doc_lens, V, R, rev, kind, nwn, so, sk, sp, ptr = g
         name = "token_unit[docs=%s,V=%d,R=%d,rev=%s,%s,nw=%s,off=%s,knorm=%s,pow=%s,ptr=%s]" % (
